@@ -51,9 +51,47 @@ enum Verdict {
     Clean(Model),
     Panic(String),
     ReadErr(String),
+    /// the tables are those of a commit point, but the persistent savepoints are not: (what is wrong)
+    SavepointsDamaged(bool, String),
 }
 
-fn judge(img: Vec<u8>, cfg: &Cfg) -> Verdict {
+/// persistent savepoints after a check that did not fail: the listed ids must be those recorded
+/// with the served commit point, and restoring each must give back the contents it captured
+fn savepoints_intact(db: &redb::Database, served: &Model, points: &[(Model, std::collections::BTreeMap<u64, Model>)]) -> Result<(), String> {
+    let listed: std::collections::BTreeSet<u64> = {
+        let txn = db.begin_write().map_err(|e| format!("{e:?}"))?;
+        let l = txn.list_persistent_savepoints().map_err(|e| format!("listing persistent savepoints: {e:?}"))?.collect();
+        txn.abort().map_err(|e| format!("{e:?}"))?;
+        l
+    };
+    // only the most recent commit points can be what a commit slot of the file holds; an older
+    // point with the same tables (e.g. the initial empty database) is no excuse for a savepoint
+    // that has disappeared
+    let recent = &points[points.len().saturating_sub(3)..];
+    let candidates: Vec<&std::collections::BTreeMap<u64, Model>> = recent.iter().filter(|(m, _)| m == served).map(|(_, p)| p).collect();
+    if candidates.is_empty() {
+        return Ok(());
+    }
+    let Some(expect) = candidates.iter().find(|p| p.keys().copied().collect::<std::collections::BTreeSet<u64>>() == listed) else {
+        return Err(format!("persistent savepoints listed {listed:?}, recorded with these contents {:?}", candidates.iter().map(|p| p.keys().copied().collect::<Vec<_>>()).collect::<Vec<_>>()));
+    };
+    // restore the newest first is not possible without invalidating others: each restore runs in
+    // its own transaction that is aborted after reading through it is impossible, so only the
+    // oldest savepoint is restored and committed (it invalidates nothing older)
+    if let Some((id, want)) = expect.iter().next() {
+        let mut txn = db.begin_write().map_err(|e| format!("{e:?}"))?;
+        let sp = txn.get_persistent_savepoint(*id).map_err(|e| format!("get_persistent_savepoint({id}): {e:?}"))?;
+        txn.restore_savepoint(&sp).map_err(|e| format!("restore_savepoint({id}): {e:?}"))?;
+        txn.commit().map_err(|e| format!("commit of the restore of savepoint {id}: {e:?}"))?;
+        let got = db.begin_read().map_err(|e| format!("{e:?}")).and_then(|rt| read_all(&rt)).map_err(|e| format!("SNAPSHOT reading after restoring savepoint {id} fails: {e}"))?;
+        if got != *want {
+            return Err(format!("SNAPSHOT restoring persistent savepoint {id} gives {} instead of the {} it captured", got.digest(), want.digest()));
+        }
+    }
+    Ok(())
+}
+
+fn judge(img: Vec<u8>, cfg: &Cfg, points: &[(Model, std::collections::BTreeMap<u64, Model>)]) -> Verdict {
     let r = catch_unwind(AssertUnwindSafe(|| {
         let backend = MemBackend::new(Arc::new(Mutex::new(img)));
         let mut db = match open_db(backend, cfg) {
@@ -67,10 +105,15 @@ fn judge(img: Vec<u8>, cfg: &Cfg) -> Verdict {
                     Ok(m) => m,
                     Err(e) => return Verdict::ReadErr(e),
                 };
+                let second = if clean { true } else { matches!(db.check_integrity(), Ok(true)) };
+                if points.iter().any(|(p, _)| *p == m) {
+                    if let Err(what) = savepoints_intact(&db, &m, points) {
+                        return Verdict::SavepointsDamaged(clean, what);
+                    }
+                }
                 if clean {
                     Verdict::Clean(m)
                 } else {
-                    let second = matches!(db.check_integrity(), Ok(true));
                     Verdict::Repaired(m, second)
                 }
             }
@@ -89,7 +132,7 @@ pub fn run(args: &Args) {
     let mut rng = Rng::new(args.seed ^ 0xC12);
     out.comment(&format!("C12 corrupt seed={} thorough={}", args.seed, args.thorough));
     let bases = if args.thorough { 10 } else { 3 };
-    for _ in 0..bases {
+    for base_index in 0..bases {
         let mut r = rng.fork();
         let page = 512usize;
         let cfg = Cfg { page, region: 65536, cache: 1 << 20 };
@@ -99,18 +142,42 @@ pub fn run(args: &Args) {
         let mut steps = gen_history(&mut r, "c12", false, page);
         steps.retain(|s| !matches!(s, Step::CrashReopen | Step::Compact));
         steps.truncate(12);
-        let mut points: Vec<Model> = vec![Model::default()];
+        let psp_of = |w: &World| -> std::collections::BTreeMap<u64, Model> { w.psp.iter().map(|(id, p)| (*id, p.expect.clone())).collect() };
+        let mut points: Vec<(Model, std::collections::BTreeMap<u64, Model>)> = vec![(Model::default(), Default::default())];
         for s in &steps {
             if !w.run_step(s, &mut scratch) {
                 break;
             }
-            if points.last() != Some(&w.committed) {
-                points.push(w.committed.clone());
+            let now = (w.committed.clone(), psp_of(&w));
+            if points.last() != Some(&now) {
+                points.push(now);
             }
+        }
+        // every second base keeps a persistent savepoint; every third one ends without any user
+        // table (only the savepoint's snapshot and the system tables are left to verify)
+        if base_index % 2 == 1 || base_index % 3 == 2 {
+            use crate::history::{End, SpOp, TxnSpec};
+            let sp = Step::Txn(TxnSpec { durability: redb::Durability::Immediate, two_phase: false, quick_repair: false, sp_ops: vec![SpOp::Persistent], ops: crate::history::gen_ops(&mut r, page, 3), end: End::Commit });
+            let _ = w.run_step(&sp, &mut scratch);
+            points.push((w.committed.clone(), psp_of(&w)));
+        }
+        let tableless = base_index % 3 == 2;
+        if tableless {
+            // no user table at all is left (the data tree of the served commit is empty): only the
+            // system tables and the snapshot of the savepoint remain to be verified
+            let txn = w.db.as_ref().unwrap().begin_write().expect("begin_write");
+            for i in 0..2 {
+                let _ = txn.delete_table(crate::history::tdef(i));
+            }
+            let _ = txn.delete_multimap_table(redb::MultimapTableDefinition::<u64, u64>::new("m0"));
+            let _ = txn.delete_multimap_table(redb::MultimapTableDefinition::<u64, &[u8]>::new("m1"));
+            txn.commit().expect("commit");
+            w.committed = Model::default();
+            points.push((w.committed.clone(), psp_of(&w)));
         }
         // empty tables whose names sort before, between and after the data tables: every table of
         // the catalog has to be verified whatever its neighbours are
-        {
+        if !tableless {
             let txn = w.db.as_ref().unwrap().begin_write().expect("begin_write");
             for name in ["a-empty", "n-empty", "zz-empty"] {
                 let def: redb::TableDefinition<u64, &[u8]> = redb::TableDefinition::new(name);
@@ -118,6 +185,12 @@ pub fn run(args: &Args) {
             }
             txn.commit().expect("commit empty tables");
         }
+        // the pages of the served commit's system tree (damage there is what check_integrity() does
+        // verify; damage in pages that only a savepoint's snapshot reaches is known finding F9)
+        let sys_pages: std::collections::BTreeSet<u64> = {
+            let snap = w.db.as_ref().unwrap().verif_snapshot();
+            w.db.as_ref().unwrap().verif_tree_pages(snap.mem.latest_system_root).map(|p| crate::history::expand_pages(&p, snap.mem.region_max_pages).into_iter().collect()).unwrap_or_default()
+        };
         let last = w.committed.clone();
         let data = w.backend.data.clone();
         w.readers.clear();
@@ -130,7 +203,7 @@ pub fn run(args: &Args) {
             out.oracle_fail(format!("corrupt-base|{f}"));
         }
         // the unaltered image must be certified with the last contents
-        match judge(image.clone(), &cfg) {
+        match judge(image.clone(), &cfg, &points) {
             Verdict::Clean(m) if m == last => {}
             other => out.oracle_fail(format!("corrupt-base|the unaltered image is not certified clean with the last contents: {other:?}")),
         }
@@ -185,7 +258,7 @@ pub fn run(args: &Args) {
                     }
                     let mut img = image.clone();
                     apply(&mut img, &alts[i]);
-                    let v = if img == image { Verdict::Clean(last.clone()) } else { judge(img, &cfg) };
+                    let v = if img == image { Verdict::Clean(last.clone()) } else { judge(img, &cfg, &points) };
                     results.lock().unwrap().push((i, v));
                 });
             }
@@ -196,7 +269,7 @@ pub fn run(args: &Args) {
             out.count("alterations");
             out.count("evaluations");
             let a = &alts[i];
-            let is_point = |m: &Model| points.iter().any(|p| p == m);
+            let is_point = |m: &Model| points.iter().any(|p| p.0 == *m);
             match v {
                 Verdict::OpenErr => out.count("verdict_open_error"),
                 Verdict::CheckErr => out.count("verdict_check_error"),
@@ -204,6 +277,22 @@ pub fn run(args: &Args) {
                     out.count("verdict_read_error_after_ok");
                     // an error while reading after a certificate: the certificate was wrong
                     out.oracle_fail(format!("certified-but-unreadable|alteration {a:?}: check_integrity() returned Ok but reading the tables fails: {e}"));
+                }
+                Verdict::SavepointsDamaged(clean, what) => {
+                    out.count("verdict_savepoints_damaged");
+                    // damage in the snapshot a savepoint pins (known finding F9) is told apart from
+                    // damage in the system tables that list the savepoints
+                    let off = match a {
+                        Alter::Xor(p, _) | Alter::Add(p, _) | Alter::Run(p, _, _) => *p,
+                        Alter::Swap(x, _, _) => *x,
+                    };
+                    let in_system_tree = off >= page && sys_pages.contains(&((off / page - 1) as u64));
+                    let (sig, what) = match what.strip_prefix("SNAPSHOT ") {
+                        _ if in_system_tree => ("certified-damaged-system-tree", what.trim_start_matches("SNAPSHOT ").to_string()),
+                        Some(w) => ("certified-damaged-savepoint", w.to_string()),
+                        None => ("certified-damaged-savepoint-table", what),
+                    };
+                    out.oracle_fail(format!("{sig}|alteration {a:?}: check_integrity() returned Ok({clean}) and the tables are those of a commit point, but {what}"));
                 }
                 Verdict::Panic(msg) => {
                     out.count("verdict_panic_not_certified");
@@ -221,7 +310,11 @@ pub fn run(args: &Args) {
                         let path = crate::image::save("corrupt", &img);
                         let empty: Vec<(Vec<u8>, Vec<u8>)> = vec![];
                         let eh = crate::table::dump_hash(&empty);
-                        out.line(&format!("img recover {path} {page} {} a-empty:normal:u64:bytes:0:{eh:016x} n-empty:normal:u64:bytes:0:{eh:016x} zz-empty:normal:u64:bytes:0:{eh:016x}", m.tablespecs()));
+                        if tableless {
+                            out.line(&format!("img recover {path} {page} {}", m.tablespecs()));
+                        } else {
+                            out.line(&format!("img recover {path} {page} {} a-empty:normal:u64:bytes:0:{eh:016x} n-empty:normal:u64:bytes:0:{eh:016x} zz-empty:normal:u64:bytes:0:{eh:016x}", m.tablespecs()));
+                        }
                     }
                 }
                 Verdict::Repaired(m, second) => {
